@@ -128,6 +128,9 @@ struct World<'a> {
     d_new: u64,
     next_id: u32,
     relabelled: HashSet<u32>,
+    /// resources that came back (any way) after a refresh superseding them had begun: a foreign
+    /// label seen on them later is a consequence of that give-back, not a cause
+    returned_superseded: HashSet<u32>,
     // ---- results ----
     violations: Vec<(String, String)>,
     nontrivial: bool,
@@ -181,7 +184,7 @@ impl<'a> World<'a> {
                         format!("{whom} was served resource #{id} (born {born}) which the reference does not hold"),
                     );
                 }
-                if label != born {
+                if label != born && !self.returned_superseded.contains(&id) {
                     // classification only (generation == discriminant in this harness)
                     self.relabelled.insert(id);
                     self.flag("acquired_under_foreign_label");
@@ -234,6 +237,9 @@ impl<'a> World<'a> {
         let after = self.count(how);
         let full = self.avail.len() >= self.cfg.size;
         let stale = born < self.completed;
+        if born < self.started {
+            self.returned_superseded.insert(id);
+        }
         if after == before + 1 {
             self.avail.push((id, born));
             if stale {
@@ -454,6 +460,7 @@ pub fn run(cfg: Config, ops: &[Op]) -> Run {
             d_new: 0,
             next_id: 100,
             relabelled: HashSet::new(),
+            returned_superseded: HashSet::new(),
             violations: vec![],
             nontrivial: false,
             served_dirty: 0,
@@ -623,7 +630,7 @@ fn dfs(cfg: Config, alpha: &[Op], hist: &mut Vec<Op>, held: usize, in_refresh: b
 
 pub fn explore(ctx: &Ctx, rep: &mut Report, found: &mut Findings) {
     let t0 = std::time::Instant::now();
-    let depth: usize = ctx.tier.pick(7, 8);
+    let depth: usize = ctx.tier.pick(8, 9);
     let sizes: Vec<usize> = ctx.tier.pick(vec![1, 2], vec![1, 2, 3]);
     let alpha = alphabet();
     let mut total = Acc::default();
@@ -631,8 +638,8 @@ pub fn explore(ctx: &Ctx, rep: &mut Report, found: &mut Findings) {
     for &size in &sizes {
         for init_full in [true, false] {
             let cfg = Config { size, init_full };
-            // thorough: one step deeper on the smallest pool, where a whole refresh takes 3 events
-            let depth = if size == 1 && depth >= 8 { depth + 1 } else { depth };
+            // the largest pool one step shallower (its alphabet is the same but more is enabled)
+            let depth = if size >= 3 { depth - 1 } else { depth };
             // the empty history and all enabled histories of length 1..3 first (work items)
             let mut acc = Acc::default();
             acc.candidates += 1;
